@@ -3,8 +3,11 @@ package hopkit
 import (
 	"fmt"
 	"net"
+	"strings"
 	"sync"
 	"time"
+
+	"hop.computer/hop/config"
 
 	"hop.computer/hop/hopserver"
 	"hop.computer/hop/keys"
@@ -186,7 +189,39 @@ func (w *World) Close() {
 	}
 }
 
+// vhostCallbacks returns the certificate-selection callbacks that a REAL hop server builds for this set of
+// virtual hosts: hopserver.NewHopServer is run on an equivalent configuration (it opens a loopback UDP socket,
+// which is closed again at once) and the closures are taken from its transport configuration.  If that is not
+// possible the selection rule is rebuilt here from hopserver.VirtualHosts.Match (modelVhostCallbacks).
 func vhostCallbacks(o SrvOpt) (func(transport.ClientHandshakeInfo) (*transport.Certificate, error), func() ([]*transport.Certificate, error)) {
+	ids := append([]*Ident{o.Ident}, o.Extra...)
+	kems := append([]*keys.KEMKeyPair{o.KEM}, o.ExtraKEM...)
+	sc := &config.ServerConfig{ListenAddress: "127.0.0.1:0", InsecureSkipVerify: true, HandshakeTimeout: 30 * time.Second}
+	for i, id := range ids {
+		pat := "*"
+		if i < len(o.Patterns) {
+			pat = o.Patterns[i]
+		}
+		nc := config.NameConfig{Pattern: pat, Key: id.Key, Certificate: id.Leaf, Intermediate: id.Inter}
+		if i < len(kems) {
+			nc.KEMKey = kems[i]
+		}
+		sc.Names = append(sc.Names, nc)
+		if o.Hidden {
+			sc.HiddenModeVHostNames = append(sc.HiddenModeVHostNames, strings.ReplaceAll(pat, "*", "x"))
+		}
+	}
+	if hs, err := hopserver.NewHopServer(sc); err == nil && hs.Server != nil {
+		real := hs.Server.VerifConfig()
+		hs.Server.Close()
+		if real.GetCertificate != nil && real.GetCertList != nil {
+			return real.GetCertificate, real.GetCertList
+		}
+	}
+	return modelVhostCallbacks(o)
+}
+
+func modelVhostCallbacks(o SrvOpt) (func(transport.ClientHandshakeInfo) (*transport.Certificate, error), func() ([]*transport.Certificate, error)) {
 	// the same selection rule as hopserver.NewHopServer's getCert closure: first virtual host whose
 	// pattern matches the requested name (hopserver.VirtualHosts.Match)
 	var vhosts hopserver.VirtualHosts
